@@ -29,8 +29,11 @@ impl<'a> ParamParser<'a> {
 
 impl<'a> ParamParser<'a> {
     /// Check that the whole parameter block of an `EXECUTE` command decodes, so that iterating
-    /// over the parameters later cannot fail halfway through. Leaves the statement untouched.
-    pub(crate) fn validate(input: &[u8], stmt: &StatementData) -> io::Result<()> {
+    /// over the parameters later cannot fail halfway through. If it does, the parameter types the
+    /// block carried (if any) become the statement's bound types right away: later executions
+    /// that omit their types rely on them whether or not the shim looks at the parameters of this
+    /// one.
+    pub(crate) fn validate(input: &[u8], stmt: &mut StatementData) -> io::Result<()> {
         let mut bound_types = stmt.bound_types.clone();
         let mut params = Params {
             params: stmt.params,
@@ -41,6 +44,7 @@ impl<'a> ParamParser<'a> {
             bound_types: &mut bound_types,
         };
         while params.try_next()?.is_some() {}
+        stmt.bound_types = bound_types;
         Ok(())
     }
 }
